@@ -586,6 +586,10 @@ class Flow:
                             all(any(d.stmt is a for a in built._acc_stmts) for d in defs if d is not d0):
                         ex = self._expand_comp(built, d0, depth - 1, stack + ((nid, d0.id),))
                         return ast.Call(func=ast.Name(id="sum", ctx=ast.Load()), args=[ex], keywords=[])
+        if isinstance(n, ast.Name) and len(defs) == 2:
+            ext = self._running_extreme(nid, defs, node, depth, stack)
+            if ext is not None:
+                return ext
         alts = []
         for d in sorted(defs, key=lambda x: x.id):
             key = (nid, d.id)
@@ -683,6 +687,77 @@ class Flow:
                         # da holds on edge `lab`, db on the other one
                         return t, (bool(lab) if first else (not bool(lab)))
         return None
+
+    def _running_extreme(self, name, defs, use, depth, stack):
+        """`m = INIT; for x in S: if E(x) > m: m = E(x)` read after the loop is max(INIT, max(E(x) for x in S)) - and just
+        max(E(x) for x in S) when INIT is E of the first element (`m = S[0]...`); `<` gives min.  None when the two definitions are
+        not of that shape."""
+        d_init = d_upd = None
+        for d in defs:
+            how = self.def_how(d, name)
+            if how[0] != "assign":
+                return None
+            loops = [t for t, lab in self.cfg.edges_dominating(d) if t.kind == "for" and lab is True]
+            if loops:
+                d_upd = (d, how[1], loops[-1])
+            else:
+                d_init = (d, how[1])
+        if d_init is None or d_upd is None:
+            return None
+        dn, val, loop = d_upd
+        if use in self.cfg.loop_body_nodes(loop) or not self.cfg.dominates(d_init[0], loop):
+            return None
+        # the update is the only statement under a comparison of its own value with the running variable, directly in the loop
+        tests = [(t, lab) for t, lab in self.cfg.edges_dominating(dn) if t.kind == "test" and self.cfg.dominates(loop, t)]
+        if len(tests) != 1:
+            return None
+        t, lab = tests[0]
+        st_if = t.stmt
+        if not (isinstance(st_if, ast.If) and not st_if.orelse and len(st_if.body) == 1 and st_if.body[0] is dn.stmt and st_if in loop.stmt.body):
+            return None
+        c = t.expr
+        neg = False
+        while isinstance(c, ast.UnaryOp) and isinstance(c.op, ast.Not):
+            c, neg = c.operand, not neg
+        if not (isinstance(c, ast.Compare) and len(c.ops) == 1):
+            return None
+        l, op, r = c.left, type(c.ops[0]), c.comparators[0]
+        if neg:
+            op = {ast.Gt: ast.LtE, ast.GtE: ast.Lt, ast.Lt: ast.GtE, ast.LtE: ast.Gt}.get(op)
+        if op not in (ast.Gt, ast.GtE, ast.Lt, ast.LtE):
+            return None
+        same = lambda a, b: ast.dump(a) == ast.dump(b)
+        run = lambda a: isinstance(a, ast.Name) and a.id == name
+        if run(r) and same(l, val):
+            kind = "max" if op in (ast.Gt, ast.GtE) else "min"
+        elif run(l) and same(r, val):
+            kind = "min" if op in (ast.Gt, ast.GtE) else "max"
+        else:
+            return None
+        # nothing else in the loop writes the running variable
+        others = [x for x in ast.walk(loop.stmt) if isinstance(x, ast.Name) and x.id == name and isinstance(x.ctx, ast.Store)]
+        if len(others) != 1:
+            return None
+        gen = ast.comprehension(target=copy.deepcopy(loop.stmt.target), iter=copy.deepcopy(loop.stmt.iter), ifs=[], is_async=0)
+        comp = ast.fix_missing_locations(ast.copy_location(ast.GeneratorExp(elt=copy.deepcopy(val), generators=[gen]), loop.stmt))
+        ex = self._expand_comp(comp, loop, depth - 1, stack + ((name, dn.id),))
+        inner = ast.Call(func=ast.Name(id=kind, ctx=ast.Load()), args=[ex], keywords=[])
+        init_x = self.expand(d_init[1], d_init[0], depth - 1, stack + ((name, d_init[0].id),))
+        # INIT = E(first element): the element expression with the loop variable(s) standing for S[0]
+        first = ast.Subscript(value=copy.deepcopy(loop.stmt.iter), slice=ast.Constant(value=0), ctx=ast.Load())
+        env = {}
+
+        def bind(tg, v):
+            if isinstance(tg, ast.Name):
+                env[tg.id] = v
+            elif isinstance(tg, (ast.Tuple, ast.List)):
+                for i, x in enumerate(tg.elts):
+                    bind(x, ast.Subscript(value=copy.deepcopy(v), slice=ast.Constant(value=i), ctx=ast.Load()))
+        bind(loop.stmt.target, first)
+        e_first = self.expand(_subst_names(copy.deepcopy(val), env), loop, depth - 1, stack)
+        if " ".join(ast.unparse(init_x).split()) == " ".join(ast.unparse(e_first).split()):
+            return inner
+        return ast.Call(func=ast.Name(id=kind, ctx=ast.Load()), args=[init_x, inner], keywords=[])
 
     def _loop_built(self, name, defnode, use):
         """`L = []` (or `{}`) filled by append / item assignment inside one `for` loop between the definition and the use is
